@@ -80,14 +80,12 @@ Lemma transform_attrs_frame mc w these aa kw cls :
 Proof.
   unfold transform_attrs.
   destruct these as [t|].
-  - destruct (has_fn (deref_these w t)); cbn; [apply frame_refl|].
-    match goal with |- context[if ?b then _ else _] => destruct b end; apply frame_refl.
+  - destruct (these_first_err w (co_tys cls) (deref_these w t)); cbn; apply frame_refl.
   - destruct aa.
     + pose proof (walk_anns_frame (co_cd cls) (co_anns cls) w) as H.
       destruct (walk_anns w (co_cd cls) (co_anns cls)) as [w1 l]. cbn in H.
-      destruct (filter _ _); cbn; [|exact H].
-      match goal with |- context[if ?b then _ else _] => destruct b end; exact H.
-    + cbn. match goal with |- context[if ?b then _ else _] => destruct b end; apply frame_refl.
+      destruct (filter _ _); cbn; exact H.
+    + cbn. apply frame_refl.
 Qed.
 
 (** ** [attrs.wrap]: the cells are not written (current code), and the world is
@@ -260,7 +258,7 @@ Qed.
 Definition ca_erase (c : counting_attr) : counting_attr :=
   {| ca_counter := 0; ca_default := ca_default c; ca_vals := ca_vals c; ca_convs := ca_convs c;
      ca_cann := ca_cann c; ca_hook := ca_hook c; ca_kw := ca_kw c; ca_init := ca_init c; ca_meta := ca_meta c;
-     ca_eqk := ca_eqk c |}.
+     ca_eqk := ca_eqk c; ca_type := ca_type c |}.
 Definition ca_sim (a b : counting_attr) : Prop := ca_erase a = ca_erase b.
 
 Definition leb_agree (p q : Z * Z) : Prop := (fst p <=? fst q)%Z = (snd p <=? snd q)%Z.
@@ -450,8 +448,8 @@ Lemma from_ca_sim mc w1 w2 tys n a b :
   (forall m, mc w1 m = mc w2 m) -> ca_sim a b ->
   from_counting_attr mc w1 tys n a = from_counting_attr mc w2 tys n b.
 Proof.
-  intros Hmc H. unfold ca_sim, ca_erase in H. injection H as H1 H2 H3 H4 H5 H6 H7 H8 H9.
-  unfold from_counting_attr. rewrite Hmc. congruence.
+  intros Hmc H. unfold ca_sim, ca_erase in H. injection H as H1 H2 H3 H4 H5 H6 H7 H8 H9 H10.
+  unfold from_counting_attr. rewrite Hmc, H1, H2, H3, H4, H5, H6, H7, H8, H9, H10. reflexivity.
 Qed.
 
 Lemma map_from_ca_sim mc w1 w2 tys l1 l2 :
@@ -498,7 +496,7 @@ Lemma these_items_sim w1 w2 d : Forall2 ca_sim (w_cas w1) (w_cas w2) ->
   Forall2 na_sim (these_items w1 d) (these_items w2 d).
 Proof.
   intros Hc. induction d as [|[n v] r IH]; cbn; [constructor|].
-  destruct v; cbn; [|exact IH].
+  destruct v; cbn; [|exact IH|exact IH].
   constructor; [|exact IH]. split; [reflexivity|]. cbn.
   apply Forall2_nth; [apply ca_sim_refl | exact Hc].
 Qed.
@@ -522,6 +520,22 @@ Section TransformRel.
   Hypothesis Hc2 : (0 <= c2)%Z.
   Hypothesis HK : forall p, In p K -> (0 < fst p <= c1 /\ 0 < snd p <= c2)%Z.
 
+  Lemma finish_sim mc w1 w2 tys kw base l1 l2 :
+    (forall m, mc w1 m = mc w2 m) -> Forall2 na_sim l1 l2 ->
+    finish_attrs mc w1 tys kw base l1 = finish_attrs mc w2 tys kw base l2.
+  Proof.
+    intros Hmc Hl. unfold finish_attrs.
+    rewrite (map_from_ca_sim mc w1 w2 tys l1 l2 Hmc Hl).
+    assert (E : forall f : string -> option ty -> bool,
+              existsb (fun e => f (fst e) (ca_type (snd e))) l1 =
+              existsb (fun e => f (fst e) (ca_type (snd e))) l2).
+    { intros f. induction Hl as [|e1 e2 r1 r2 [Hn Hs] Hr IH]; cbn; [reflexivity|].
+      rewrite IH, Hn. unfold ca_sim, ca_erase in Hs.
+      injection Hs as _ _ _ _ _ _ _ _ _ Ht. now rewrite Ht. }
+    specialize (E (fun n t => match lookup_ty n tys, t with Some _, Some _ => true | _, _ => false end)).
+    cbn in E. rewrite E. reflexivity.
+  Qed.
+
   Lemma transform_rel mc w1 w2 these aa kw cls1 cls2 :
     objs_sim w1 w2 -> (forall w w', w_metas w = w_metas w' -> forall m, mc w m = mc w' m) ->
     co_rel K c1 c2 cls1 cls2 ->
@@ -533,10 +547,15 @@ Section TransformRel.
     assert (Hd : forall t, deref_these w1 t = deref_these w2 t).
     { intros [id|d]; cbn; congruence. }
     destruct these as [t|].
-    - rewrite Hd. destruct (has_fn (deref_these w2 t)); [reflexivity|].
-      cbv zeta. rewrite (map_from_ca_sim mc w1 w2 (co_tys cls2) (these_items w1 (deref_these w2 t)) (these_items w2 (deref_these w2 t)));
-        [| apply Hmc; assumption | apply these_items_sim; assumption].
-      destruct kw; match goal with |- context[order_ok ?x ?y] => destruct (order_ok x y) end; reflexivity.
+    - rewrite Hd.
+      assert (E : these_first_err w1 (co_tys cls2) (deref_these w2 t)
+                  = these_first_err w2 (co_tys cls2) (deref_these w2 t)).
+      { induction (deref_these w2 t) as [|[n v] r IH]; [reflexivity|]. cbn.
+        destruct v; try reflexivity.
+        pose proof (Forall2_nth ca_sim dummy_ca dummy_ca (ca_sim_refl _) _ _ Hcas id) as Hs.
+        unfold ca_sim, ca_erase in Hs. injection Hs as _ _ _ _ _ _ _ _ _ Ht. rewrite Ht, IH. reflexivity. }
+      rewrite E. destruct (these_first_err w2 (co_tys cls2) (deref_these w2 t)); [reflexivity|].
+      cbn. apply finish_sim; [apply Hmc; assumption | apply these_items_sim; assumption].
     - destruct aa.
       + pose proof (walk_anns_rel K c1 c2 _ _ Hcd (co_anns cls2) w1 w2 (conj Hlists Hconvs)) as Hw.
         pose proof (walk_anns_frame (co_cd cls1) (co_anns cls2) w1) as F1.
@@ -545,14 +564,10 @@ Section TransformRel.
         destruct (walk_anns w2 (co_cd cls2) (co_anns cls2)) as [w2' l2]. cbn in Hw, F1, F2.
         rewrite (Forall2_map_fst (na_pair K c1 c2) (cas_of_cd (co_cd cls1)) (cas_of_cd (co_cd cls2)));
           [| intros x y [H _]; exact H | apply cas_of_cd_rel; assumption].
-        destruct (filter _ _); [|reflexivity]. cbv zeta.
-        rewrite (map_from_ca_sim mc w1' w2' (co_tys cls2) l1 l2); [| | exact Hw].
-        { destruct kw; match goal with |- context[order_ok ?x ?y] => destruct (order_ok x y) end; reflexivity. }
+        destruct (filter _ _); [|reflexivity]. cbn.
+        apply finish_sim; [|exact Hw].
         apply Hmc. destruct F1 as [(_&_&_&_&Q1&_) _], F2 as [(_&_&_&_&Q2&_) _]. congruence.
-      + cbv zeta.
-        rewrite (map_from_ca_sim mc w1 w2 (co_tys cls2) (sorted_by_counter (cas_of_cd (co_cd cls1)))
-                   (sorted_by_counter (cas_of_cd (co_cd cls2)))); [| apply Hmc; assumption |].
-        { destruct kw; match goal with |- context[order_ok ?x ?y] => destruct (order_ok x y) end; reflexivity. }
+      + cbn. apply finish_sim; [apply Hmc; assumption|].
         apply Forall2_impl with (R := na_pair K c1 c2).
         { intros x y [H1 H2]. split; [exact H1 | eapply cpair_sim; eauto]. }
         unfold sorted_by_counter. apply sort_rel.
@@ -560,6 +575,14 @@ Section TransformRel.
         * apply cas_of_cd_rel; assumption.
   Qed.
 End TransformRel.
+
+Lemma typed_fields_sim w1 w2 d : objs_sim w1 w2 -> typed_fields w1 d = typed_fields w2 d.
+Proof.
+  intros (_&_&_&_&Hcas&_). unfold typed_fields.
+  induction d as [|[n v] r IH]; [reflexivity|]. cbn. rewrite IH. destruct v; try reflexivity.
+  pose proof (Forall2_nth ca_sim dummy_ca dummy_ca (ca_sim_refl _) _ _ Hcas id) as Hs.
+  unfold ca_sim, ca_erase in Hs. injection Hs as _ _ _ _ _ _ _ _ _ Ht. now rewrite Ht.
+Qed.
 
 Definition mc_ok (mc : world -> metaref -> metaval) : Prop :=
   forall w w', w_metas w = w_metas w' -> forall m, mc w m = mc w' m.
@@ -665,9 +688,13 @@ Section WrapRel.
       assert (Hrel : co_rel K c1 c2 cls cls) by (repeat split; constructor);
       pose proof (attrs_wrap_rel false meta_copy w1 w2 c cls cls Ho meta_copy_ok Hrel) as [H _];
       unfold attrs_wrap;
-      destruct (attrs_wrap_gen false meta_copy w1 c cls) as [[? ?] ?];
-      destruct (attrs_wrap_gen false meta_copy w2 c cls) as [[? ?] ?] end.
-    exact H.
+      pose proof (attrs_wrap_frame false meta_copy w1 c cls) as F1;
+      pose proof (attrs_wrap_frame false meta_copy w2 c cls) as F2;
+      destruct (attrs_wrap_gen false meta_copy w1 c cls) as [[? wa] oa];
+      destruct (attrs_wrap_gen false meta_copy w2 c cls) as [[? wb] ob] end.
+    cbn in *. subst ob.
+    rewrite (typed_fields_sim wa wb); [reflexivity|].
+    apply (objs_sim_frame w1 w2 wa wb Ho F1 F2).
   Qed.
 End WrapRel.
 
@@ -776,7 +803,7 @@ Qed.
 
 Lemma ca_add_validator_sim a b s : ca_sim a b -> ca_sim (ca_add_validator a s) (ca_add_validator b s).
 Proof.
-  unfold ca_sim, ca_erase, ca_add_validator; cbn. intros H. injection H as H1 H2 H3 H4 H5 H6 H7 H8 H9.
+  unfold ca_sim, ca_erase, ca_add_validator; cbn. intros H. injection H as H1 H2 H3 H4 H5 H6 H7 H8 H9 H10.
   congruence.
 Qed.
 
@@ -1129,24 +1156,25 @@ Proof.
   rewrite Forall_forall in Hl. exact (Hl e He).
 Qed.
 
-Ltac fin_noalias :=
-  cbv zeta;
-  match goal with |- context[order_ok false ?x] => destruct (order_ok false x) end; [|discriminate];
-  let H := fresh in intros H; injection H as _ <-;
-  apply Forall_app; split;
-  match goal with |- context[if ?k then _ else _] => destruct k end;
-  auto using noalias_from, noalias_inh, noalias_kw.
+Lemma finish_noalias w1 tys kw base l attrs :
+  finish_attrs meta_copy w1 tys kw base l = DOk attrs -> Forall fattr_noalias attrs.
+Proof.
+  unfold finish_attrs. destruct (existsb _ l); [discriminate|]. cbv zeta.
+  match goal with |- context[order_ok false ?x] => destruct (order_ok false x) end; [|discriminate].
+  intros H; injection H as <-.
+  apply Forall_app; split; destruct kw; auto using noalias_from, noalias_inh, noalias_kw.
+Qed.
 
 Lemma transform_noalias w these aa kw cls w' attrs :
   transform_attrs meta_copy w these aa kw cls = (w', DOk attrs) -> Forall fattr_noalias attrs.
 Proof.
   unfold transform_attrs.
   destruct these as [t|].
-  - destruct (has_fn _); [discriminate|]. fin_noalias.
+  - destruct (these_first_err _ _ _); [discriminate|]. intros H; injection H as _ H. eapply finish_noalias; eauto.
   - destruct aa.
     + destruct (walk_anns w (co_cd cls) (co_anns cls)) as [w1 l].
-      destruct (filter _ _); [|discriminate]. fin_noalias.
-    + fin_noalias.
+      destruct (filter _ _); [|discriminate]. intros H; injection H as _ H. eapply finish_noalias; eauto.
+    + intros H; injection H as _ H. eapply finish_noalias; eauto.
 Qed.
 
 Lemma attrs_wrap_noalias w c cls : outcome_noalias (snd (attrs_wrap w c cls)).
@@ -1189,7 +1217,10 @@ Proof.
   destruct (_ && _); [exact I|].
   destruct (attrs_factory w _) as [c|e]; [|exact I].
   match goal with |- context[attrs_wrap w c ?cls] => pose proof (attrs_wrap_noalias w c cls) as H;
-    destruct (attrs_wrap w c cls) as [[? ?] ?] end. exact H.
+    destruct (attrs_wrap w c cls) as [[? ?] o] end. cbn in *.
+  destruct o as [e|r]; cbn; [exact I|]. cbn in H.
+  apply Forall_forall. intros fa Hfa. apply in_map_iff in Hfa as (x & <- & Hx).
+  rewrite Forall_forall in H. exact (H x Hx).
 Qed.
 
 Lemma cop_noalias c o : outcome_noalias o -> outcome_noalias (cop_outcome c o).
@@ -1309,7 +1340,7 @@ Definition frozen_base : base_info :=
                      ba_cann := None; ba_type := None; ba_hook := OsNone; ba_kw := false; ba_init := true; ba_meta := [] |}] |}.
 Definition ib (d : bool) (c : seqarg) (m : metaarg) : attrib_args :=
   {| aa_default := d; aa_v := SNone; aa_c := c; aa_h := HANone; aa_kw := false; aa_init := true;
-     aa_m := m; aa_eqk := EKNone |}.
+     aa_m := m; aa_eqk := EKNone; aa_type := None |}.
 Definition body1 (a : attrib_args) (own_hash : bool) (base : base_info) : class_body :=
   {| cb_fields := [{| fd_name := "x"; fd_entry := EOwn a; fd_ann := true; fd_cv := false; fd_ty := TObj "int" |}];
      cb_hash := own_hash; cb_eq := false; cb_setattr := false; cb_init := false;
@@ -1466,7 +1497,7 @@ Definition sample_history : list op :=
    OApply 0 {| cb_fields := [{| fd_name := "x";
                                 fd_entry := EOwn {| aa_default := true; aa_v := SList 0; aa_c := SNone;
                                                     aa_h := HANone; aa_kw := false; aa_init := true;
-                                                    aa_m := MANone; aa_eqk := EKNone |};
+                                                    aa_m := MANone; aa_eqk := EKNone; aa_type := None |};
                                 fd_ann := true; fd_cv := false; fd_ty := TObj "int" |}];
                cb_hash := false; cb_eq := false; cb_setattr := false; cb_init := false;
                cb_pre := false; cb_post := false; cb_base := obj_base |};
@@ -1586,9 +1617,37 @@ Proof. vm_compute. reflexivity. Qed.
 Example cmp_using_keys_per_class :
   let body st := body1 {| aa_default := false; aa_v := SNone; aa_c := SNone; aa_h := HANone;
                           aa_kw := false; aa_init := true; aa_m := MANone;
-                          aa_eqk := EKCmp "e1" st |} false obj_base in
+                          aa_eqk := EKCmp "e1" st; aa_type := None |} false obj_base in
   let mixed ops := map (fun f => match f with FOk x => fp_mixed x | FExc _ => None end)
                        (fingerprints (run w0 (ODecoS plain_args :: ops))) in
   mixed [OApply 0 (body true); OApply 0 (body false)] = [Some false; Some true] /\
   mixed [OApply 0 (body false); OApply 0 (body true)] = [Some true; Some false].
 Proof. vm_compute. split; reflexivity. Qed.
+
+(** ** Round 5: a class_body with a nested [__annotations__] dict and fields with [type=] *)
+
+Definition ib_typed (t : ty) : attrib_args :=
+  {| aa_default := false; aa_v := SNone; aa_c := SNone; aa_h := HANone; aa_kw := false;
+     aa_init := true; aa_m := MANone; aa_eqk := EKNone; aa_type := Some t |}.
+
+Definition w_mk2 : world :=
+  run w0 [OAttrib (ib_typed (TObj "int")); OAttrib (ib_typed (TObj "str"));
+          ONewDict [("x", DCa 0)]; ONewDict [("x", DCa 1)];
+          ONewDict [("__annotations__", DAnns [("registry", TObj "typing.ClassVar[dict]")])]].
+Definition mkA := {| mk_attrs := 0; mk_body := Some 2; mk_args := plain_args; mk_base := obj_base |}.
+Definition mkB := {| mk_attrs := 1; mk_body := Some 2; mk_args := plain_args; mk_base := obj_base |}.
+
+(** [cls.__annotations__.update(...)] instead of the rebinding writes A's field types into the
+    caller's NESTED dict (the class made by [types.new_class] has that very dict as its
+    [__annotations__]); B made from the same class_body is then rejected. *)
+Lemma make_class_annotations_update_refuted :
+  w_dicts (fst (make_class_ann_update w_mk2 mkA)) <> w_dicts w_mk2 /\
+  snd (make_class_ann_update (fst (make_class_ann_update w_mk2 mkA)) mkB) = Raised EValueError /\
+  exists r, snd (make_class_ann_update w_mk2 mkB) = Built r.
+Proof. vm_compute. split; [intros H; discriminate H | split; [reflexivity | eexists; reflexivity]]. Qed.
+
+Example make_class_nested_annotations_kept :
+  w_dicts (fst (make_class w_mk2 mkA)) = w_dicts w_mk2 /\
+  snd (make_class (fst (make_class w_mk2 mkA)) mkB) = snd (make_class w_mk2 mkB) /\
+  exists r, snd (make_class w_mk2 mkB) = Built r /\ map fa_type (r_fields r) = [Some (TObj "str")].
+Proof. vm_compute. split; [reflexivity | split; [reflexivity | eexists; split; reflexivity]]. Qed.
